@@ -159,12 +159,11 @@ def run_impl(lines):
             elif t[0] == 'call':
                 obs.append(run_call(M, 'r', entry, [parse_rat(x) for x in t[2:]], show_rat))
             else:
-                saved = M._math
-                M._math = math_api.StandIn(Q)
+                restore = math_api.install_shims(M, math_api.StandIn(Q))
                 try:
                     obs.append(run_call(M, 'rx', entry, [parse_rat(x) for x in t[2:]], show_rat))
                 finally:
-                    M._math = saved
+                    restore()
         elif t[0] == 'swz':
             cls = getattr(M, t[1])
             attrs = '' if t[2] == '-' else t[2]
